@@ -289,3 +289,15 @@ def der_delegated(ctx):
         ctx.undecided('der_encode_sig no longer returns the result of the back end DER encoder (returns: %s): strict DER cannot be decided statically' % [norm(r.value)[:50] for r in rets])
     defs = {norm(n.targets[0]): norm(n.value) for n in ast.walk(fn) if isinstance(n, ast.Assign)}
     ctx.require(defs.get('rb') == 'ecdsa.der.encode_integer(r)' and defs.get('sb') == 'ecdsa.der.encode_integer(s)', q, 'r / s are not encoded by ecdsa.der.encode_integer: %s' % defs, fn)
+
+
+@PROP.obligation('C13.attr-memos', canaries=[
+    mut.replace_stmt('keys', 'Signature.as_der_encoded', 'self._der_encoded = der_encode_sig(self.r, self.s) + self.hash_type_byte', 'self._der_encoded = der_encode_sig(self.r, self.s)\nif include_hash_type:\n    self._der_encoded += self.hash_type_byte', 'cached DER form depends on the first caller'),
+])
+def attr_memos(ctx):
+    """Attribute memos of Signature (the cached DER serialisation): the cached value depends on no argument of the filling method that the
+    reuse test leaves unchecked, and every method that assigns state it was computed from resets it - otherwise the serialised
+    signature depends on which accessor was called first."""
+    from .common_cache import attr_memos as run
+    n = run(ctx, 'keys', [['Signature']], 'Signature', 'the serialised signature (with / without the hash type byte) depends on which accessor ran first: the script carries a signature that fails BIP66 / hash-type parsing')
+    ctx.floor(n, 1, 'attribute memos of Signature')
